@@ -145,6 +145,8 @@ fn one_case_c(rng: &mut Rng, sink: &mut Sink) {
     let mut rdead = false;
 
     let mut credits: Vec<Credit<'_, Rec>> = vec![];
+    let mut cepoch: Vec<u32> = vec![]; // 0-RTT epoch in which each credit was obtained
+    let mut epoch = 0u32;
     let mut limited_seen = false;
     let mut returned_seen = false;
     let mut posted_seen = false;
@@ -164,6 +166,7 @@ fn one_case_c(rng: &mut Rng, sink: &mut Sink) {
             while !credits.is_empty() && !poisoned {
                 let a = credits[0].available();
                 let cr = credits.remove(0);
+                cepoch.remove(0);
                 let r = catch(move || drop(cr));
                 match r {
                     Ok(()) => sink.line("drop 0", &format!("ok {}", s_tail(&sc, credits.len()))),
@@ -197,6 +200,7 @@ fn one_case_c(rng: &mut Rng, sink: &mut Sink) {
                     if (cr.available() as u64) > q { sink.monitor_fail("credit_exceeds_quota", "credit larger than requested"); }
                     let a = cr.available();
                     credits.push(cr);
+                    cepoch.push(epoch);
                     sink.line(&op, &format!("avail={}{} {}", a, f, s_tail(&sc, credits.len())));
                 }
                 Ok(Err(_)) => { sink.branch("credit:err"); sink.line(&op, &format!("err {}", s_tail(&sc, credits.len()))); if !closed { sink.monitor_fail("credit_err_on_live", "credit returned Err on a live controller"); } }
@@ -218,7 +222,7 @@ fn one_case_c(rng: &mut Rng, sink: &mut Sink) {
             let cr = &mut credits[k];
             match catch(move || cr.post_sent(n as usize)) {
                 Ok(()) => {
-                    posted += n as u128; fresh_epoch += n as u128;
+                    posted += n as u128; if cepoch[k] == epoch { fresh_epoch += n as u128; }
                     if n > 0 { posted_seen = true; }
                     sink.branch("post:ok");
                     sink.line(&op, &format!("ok {}", s_tail(&sc, credits.len())));
@@ -231,6 +235,7 @@ fn one_case_c(rng: &mut Rng, sink: &mut Sink) {
             let a = credits[k].available();
             let op = format!("drop {}", k);
             let cr = credits.remove(k);
+            cepoch.remove(k);
             match catch(move || drop(cr)) {
                 Ok(()) => { if a > 0 { returned_seen = true; } sink.branch("drop:ok"); sink.line(&op, &format!("ok {}", s_tail(&sc, credits.len()))); }
                 Err(_) => {
@@ -242,7 +247,7 @@ fn one_case_c(rng: &mut Rng, sink: &mut Sink) {
             }
         } else if c < 82 {
             let base = cur.map(|(_, m, _)| m).unwrap_or(lim);
-            let m = match rng.below(6) { 0 => base, 1 => base.saturating_sub(rng.range(1, 10)), 2 => rng.below(base + 1), 3 => (base + rng.range(1, 40)).min(VMAX), 4 => (base + rng.range(1, 5000)).min(VMAX), _ => pick_limit(rng).min(VMAX) };
+            let m = match rng.below(6) { 0 => base, 1 => base.saturating_sub(rng.range(1, 10)), 2 => rng.below(base + 1), 3 => (base + rng.range(1, 40)).min(VMAX), 4 => (base + rng.range(1, 5000)).min(VMAX), _ => pick_limit(rng) }.min(VMAX);
             let op = format!("maxdata {}", m);
             let r = catch(|| sc.recv_frame(MaxDataFrame::new(VarInt::from_u64(m).unwrap())));
             if !closed && m > lim { lim = m; }
@@ -250,11 +255,11 @@ fn one_case_c(rng: &mut Rng, sink: &mut Sink) {
         } else if c < 86 {
             let rej = rng.chance(1, 2);
             let base = cur.map(|(s, _, _)| s).unwrap_or(0);
-            let m = match rng.below(5) { 0 => base, 1 => base.saturating_sub(rng.range(1, 20)), 2 => base + rng.range(1, 200), 3 => 0, _ => pick_limit(rng).min(VMAX) };
+            let m = match rng.below(5) { 0 => base, 1 => base.saturating_sub(rng.range(1, 20)), 2 => base + rng.range(1, 200), 3 => 0, _ => pick_limit(rng) }.min(VMAX);
             let op = format!("revise {} {}", if rej { 1 } else { 0 }, m);
             let r = catch(|| sc.revise_max_data(rej, m));
             if !closed {
-                if rej { lim = m; fresh_epoch = 0; rejected = true; sink.branch("revise:rejected"); } else { if m > lim { lim = m; } sink.branch("revise:accepted"); }
+                if rej { lim = m; fresh_epoch = 0; epoch += 1; rejected = true; sink.branch("revise:rejected"); } else { if m > lim { lim = m; } sink.branch("revise:accepted"); }
             }
             match r { Ok(_) => sink.line(&op, &format!("ok {}", s_tail(&sc, credits.len()))), Err(_) => { sink.line(&op, "PANIC"); sink.monitor_fail("panic:send:revise", "revise_max_data panicked"); poisoned = true; } }
         } else if c < 88 {
